@@ -156,7 +156,7 @@ pub fn eval_one(profile: &str, ast: &Node, flags: Flags, hays: &[Hay], run: &Run
     acc.digests.push((h64(&(profile, &pat, flags)), digest));
 }
 
-const PROFILES: [(&str, usize, usize); 8] = [("dotcap", 4, 6), ("utf8", 3, 4), ("onechar", 3, 3), ("look", 3, 4), ("lit", 2, 3), ("icase", 2, 3), ("core", 4, 5), ("vset", 2, 3)];
+const PROFILES: [(&str, usize, usize); 10] = [("dotcap", 4, 6), ("utf8", 3, 4), ("onechar", 3, 3), ("look", 3, 4), ("lit", 2, 3), ("icase", 2, 3), ("core", 4, 5), ("vset", 2, 3), ("icaseback", 6, 7), ("fail", 8, 9)];
 
 pub fn explore(run: &Run) -> (Stats, Vec<(u64, u64)>) {
     let thorough = run.thorough();
@@ -167,6 +167,8 @@ pub fn explore(run: &Run) -> (Stats, Vec<(u64, u64)>) {
         // haystacks over all four UTF-8 lengths (every adjacency), empty, both ends
         let hays: Vec<Hay> = if name == "lit" {
             crate::sweep::lit_hays().into_iter().filter(|h| h.cps.len() <= 20).collect()
+        } else if name == "icaseback" || name == "fail" {
+            enumerate::all_hays(&sp.alphabet, sp.hay_quick)
         } else {
             let mut alphabet: Vec<u32> = vec!['a' as u32, 'é' as u32, '€' as u32, 0x1F600];
             for &c in &sp.alphabet {
